@@ -7,7 +7,10 @@ Tie: `rbacx.core.policy.evaluate` / `rbacx.core.policyset.decide` against the mo
 Tie by regeneration: the combining logic itself — the tail of the rule loop and the finalisation of `evaluate`, the tail of the child
 loop and the finalisation of `decide` — is translated from the current source text (harness/extractors/src_translation_fragments.py),
 proved equal to the model by the per-run obligation `Run/C02_translated.lean`, and evaluated against the same statements run by
-CPython (`translated_vs_python`)."""
+CPython (`translated_vs_python`).  And the two evaluators AS WHOLES — `evaluate`, `_decide_single` / `decide`, prologues, loop heads,
+exceptions and the recursive dispatch included — are translated in exception-passing style
+(harness/extractors/src_translation_evaluators.py), proved to compute the model's `evaluate` / `decideTree` by the per-run obligation
+`Run/C02_whole.lean`, and evaluated against the real functions (`translated_whole_vs_python`)."""
 from __future__ import annotations
 
 import itertools
@@ -131,6 +134,18 @@ def enum_deep():
                         yield {"algorithm": algo, "policies": kids}, f"deep{depth}|{algo}"
 
 
+def enum_literal_conditions():
+    """rules whose condition is not a dict — its truth value decides (`eval_condition`: `return bool(cond)`), and only `None` means
+    "no condition": a falsy literal (`false`, 0, "", [], {}) makes the rule not apply"""
+    for cond in (False, 0, "", [], {}, True, 1, "x", [0], None):
+        for eff in ("permit", "deny"):
+            for algo in gen.ALGOS:
+                r0 = {"id": "r0", "effect": eff, "actions": ["read"], "resource": {"type": "doc"}, "condition": cond}
+                yield {"algorithm": algo, "rules": [r0]}, f"litcond|{cond!r}|{eff}|{algo}"
+                yield {"algorithm": algo, "rules": [r0, template("deny" if eff == "permit" else "permit", 1)]}, f"litcond2|{cond!r}|{eff}|{algo}"
+                yield {"algorithm": algo, "policies": [{"id": "p", "rules": [r0]}, {"id": "q", "rules": [template("action", 0)]}]}, f"litcond-set|{cond!r}|{algo}"
+
+
 def impl(policy: dict, env: dict) -> dict:
     try:
         raw = rset.decide(policy, env) if "policies" in policy else rpolicy.evaluate(policy, env)
@@ -155,6 +170,8 @@ def cases(run: lib.Run, scale: int = 1):
     for pol, label in enum_deep():
         yield pol, ENV, label
     for pol, label in enum_ids(3 if quick else 4):
+        yield pol, ENV, label
+    for pol, label in enum_literal_conditions():
         yield pol, ENV, label
     r = random.Random(run.seed * 7919 + 2)
     n = (1500 if quick else 15000) * scale
@@ -403,6 +420,182 @@ def translated_vs_python(run: lib.Run, facts: dict | None = None) -> tuple[bool,
     return bad == 0, f"{bad} of {len(calls)} evaluations differ" if bad else f"agree on {len(calls)} evaluations"
 
 
+# ---------------------------------------------------------------------- the evaluators translated whole vs the real functions
+
+MALFORMED_POLICIES = [
+    # rules not a list / absent / falsy
+    {"rules": "abc"}, {"rules": {"a": 1}}, {"rules": 5}, {"rules": None}, {}, {"rules": []}, {"rules": 0}, {"rules": True},
+    {"algorithm": "first-applicable", "rules": "abc"}, {"algorithm": "no-such", "rules": 7},
+    # a rule that is not a dict (reached / not reached because an earlier rule broke the loop)
+    {"rules": [5]}, {"rules": ["x"]}, {"rules": [None]}, {"rules": [[1, 2]]}, {"rules": [True]},
+    {"algorithm": "first-applicable", "rules": [template("permit", 0), 5]}, {"algorithm": "deny-overrides", "rules": [template("permit", 0), 5]},
+    {"algorithm": "deny-overrides", "rules": [template("deny", 0), "x"]}, {"algorithm": "permit-overrides", "rules": [template("action", 0), None]},
+    # algorithm / effect / obligations / actions / resource that are not what the schema says
+    {"algorithm": 5, "rules": []}, {"algorithm": ["x"], "rules": []}, {"algorithm": {"a": 1}, "rules": []}, {"algorithm": None, "rules": [template("deny", 0)]},
+    {"algorithm": "", "rules": [template("permit", 0)]}, {"algorithm": True, "rules": []}, {"algorithm": "DENY-Overrides", "rules": [template("permit", 0), template("deny", 1)]},
+    {"algorithm": "First-Applicable", "rules": [template("permit", 0), template("deny", 1)]},
+    {"rules": [dict(template("permit", 0), effect=5)]}, {"rules": [dict(template("permit", 0), effect=None)]}, {"rules": [dict(template("permit", 0), effect="DENY")]},
+    {"rules": [dict(template("permit", 0), effect="")]}, {"rules": [dict(template("permit", 0), effect=["deny"])]}, {"rules": [dict(template("action", 0), effect=5)]},
+    {"rules": [dict(template("permit", 0), obligations="ab")]}, {"rules": [dict(template("permit", 0), obligations={"k": 1})]},
+    {"rules": [dict(template("permit", 0), obligations=[{"type": "require_mfa"}])]}, {"rules": [dict(template("deny", 0), obligations=None)]},
+    {"rules": [dict(template("permit", 0), actions="read")]}, {"rules": [dict(template("permit", 0), actions=5)]}, {"rules": [dict(template("permit", 0), actions={"read": 1})]},
+    {"rules": [dict(template("permit", 0), resource=5)]}, {"rules": [dict(template("permit", 0), resource="doc")]}, {"rules": [dict(template("permit", 0), resource=None)]},
+    {"rules": [dict(template("permit", 0), id=None)]}, {"rules": [dict(template("permit", 0), id=0)]}, {"rules": [dict(template("permit", 0), id=["a"])]},
+    {"rules": [dict(template("permit", 0), condition={"and": 5})]}, {"rules": [dict(template("permit", 0), condition={"==": [1]})]},
+    {"rules": [dict(template("permit", 0), condition={"==": 5})]}, {"rules": [dict(template("permit", 0), condition={"not": {"<": [1, "a"]}})]},
+    {"rules": [dict(template("permit", 0), condition={"rel": "owner"})]}, {"rules": [dict(template("permit", 0), condition={"or": [{"rel": {"relation": "viewer"}}, {"==": [1, 1]}]})]},
+    {"rules": [dict(template("permit", 0), condition={"==": [{"attr": "subject.id"}, "u"]})]}, {"rules": [dict(template("permit", 0), condition={"==": [{"attr": "action.zzz"}, None]})]},
+    {"rules": [dict(template("permit", 0), condition={"before": ["2024-01-01T00:00:00Z", "2025-01-01T00:00:00Z"]})]},
+    {"rules": [dict(template("permit", 0), condition={"before": ["garbage", 5]})]},
+]
+MALFORMED_SETS = [
+    {"policies": "abc"}, {"policies": 5}, {"policies": {"a": 1}}, {"policies": None}, {"policies": []}, {"policies": 0},
+    {"algorithm": "first-applicable", "policies": "abc"}, {"algorithm": 5, "policies": []}, {"algorithm": ["x"], "policies": "abc"},
+    {"algorithm": "", "policies": [{"id": "p", "rules": [template("permit", 0)]}]}, {"algorithm": "Permit-Overrides", "policies": [{"id": "p", "rules": [template("deny", 0)]}, {"id": "q", "rules": [template("permit", 0)]}]},
+    # a child that is not a dict (reached / not reached)
+    {"policies": [5]}, {"policies": ["x"]}, {"policies": [None]}, {"policies": [[1]]},
+    {"algorithm": "first-applicable", "policies": [{"id": "p", "rules": [template("permit", 0)]}, 5]},
+    {"algorithm": "deny-overrides", "policies": [{"id": "p", "rules": [template("permit", 0)]}, 5]},
+    {"algorithm": "permit-overrides", "policies": [{"id": "p", "rules": [template("permit", 0)]}, "x"]},
+    # children that are malformed policies / sets; ids of other shapes; a child without rules
+    {"policies": [{"rules": "abc"}]}, {"policies": [{"rules": [5]}]}, {"policies": [{"algorithm": 5, "rules": []}]}, {"policies": [{"policies": "abc"}]},
+    {"policies": [{"policies": [5]}]}, {"policies": [{"id": 5, "rules": [template("deny", 0)]}]}, {"policies": [{"id": None, "rules": [template("permit", 0)]}]},
+    {"policies": [{"id": ["a"], "rules": [template("permit", 0)]}, {"id": {"k": 1}, "rules": [template("deny", 0)]}]},
+    {"policies": [{}]}, {"policies": [{"policies": []}]}, {"policies": [{"id": "in", "algorithm": "first-applicable", "policies": [{"id": "p", "rules": [template("permit", 0)]}]}]},
+    {"algorithm": "first-applicable", "policies": [{"id": "in", "algorithm": "first-applicable", "policies": [{"id": "p", "rules": [dict(template("permit", 0), id="")]}]}]},
+    {"policies": [{"id": "p", "rules": [dict(template("permit", 0), effect=5)]}]}, {"policies": [{"id": "p", "rules": [dict(template("permit", 0), condition={"and": 5})]}]},
+]
+ENVS_WHOLE = [ENV, {**ENV, "__strict_types__": True}, {**ENV, "action": None}, {"action": "read"}, {**ENV, "resource": None}, {**ENV, "resource": {}},
+              {**ENV, "action": "write"}, {**ENV, "resource": {"type": "file", "id": 2, "attrs": {"k": 1.5}}}, {}]
+
+
+def whole_cases(run: lib.Run):
+    """(function, [document, env] or [policy, env, algorithm], label)"""
+    quick = run.tier == "quick"
+    for pol, label in enum_policies(3):
+        yield "evaluate", [pol, ENV, None], label
+    for pol, label in enum_ids(2):
+        yield ("decide" if "policies" in pol else "evaluate"), ([pol, ENV] if "policies" in pol else [pol, ENV, None]), label
+    for pol, label in enum_literal_conditions():
+        yield ("decide" if "policies" in pol else "evaluate"), ([pol, ENV] if "policies" in pol else [pol, ENV, None]), label
+    for k, (pol, label) in enumerate(enum_sets(True)):
+        if k % (7 if quick else 2) == 0 or label.startswith("nested"):
+            yield "decide", [pol, ENV], label
+    for pol, label in enum_deep():
+        if label.startswith(("deep6|", "deep20|")):
+            yield "decide", [pol, ENV], label
+    for pol in MALFORMED_POLICIES:
+        for env in ENVS_WHOLE:
+            yield "evaluate", [pol, env, None], "malformed-policy"
+        for alg in ("first-applicable", "Permit-Overrides", "", 5, ["x"], "no-such"):
+            yield "evaluate", [pol, ENV, alg], "malformed-policy|algorithm="
+    for pol in MALFORMED_SETS:
+        for env in ENVS_WHOLE[:4]:
+            yield "decide", [pol, env], "malformed-set"
+            yield "_decide_single", [pol, env], "malformed-set|single"
+    for doc in (5, "x", None, [1], True, 1.5):
+        yield "evaluate", [doc, ENV, None], "non-dict-policy"
+        yield "evaluate", [doc, ENV, "deny-overrides"], "non-dict-policy|algorithm="
+        yield "decide", [doc, ENV], "non-dict-set"
+        yield "_decide_single", [doc, ENV], "non-dict-doc|single"
+    for env in (None, 5, "x", [1]):
+        yield "evaluate", [{"rules": [template("permit", 0)]}, env, None], "non-dict-env"
+        yield "evaluate", [{"rules": []}, env, None], "non-dict-env|no rules"
+        yield "decide", [{"policies": [{"id": "p", "rules": [template("permit", 0)]}]}, env], "non-dict-env|set"
+    r = random.Random(run.seed * 6007 + 2)
+    for i in range((250 if quick else 2500) * run.boost):
+        if r.random() < 0.5:
+            pol = gen.gen_policy(r, algo="explicit" if r.random() < 0.9 else "any")
+        else:
+            pol = gen.gen_policyset(r, depth=3, schema_valid=r.random() < 0.4)
+        env = env_of(gen.gen_request(r, pol))
+        if r.random() < 0.3:
+            env["__strict_types__"] = True
+        yield ("decide" if "policies" in pol else "evaluate"), ([pol, env] if "policies" in pol else [pol, env, None]), f"random-whole#{i}"
+
+
+def translated_whole_vs_python(run: lib.Run, facts: dict | None = None) -> tuple[bool, str]:
+    """the reference evaluators TRANSLATED WHOLE (Generated.Src.evaluate / decide / decide_single, exception-passing style, evaluated by
+    `lake env lean --run Rbacx/Run/SrcEvalEvaluators.lean` with the budget the obligation C02_whole proves sufficient) against the REAL
+    `policy.evaluate` / `policyset.decide` / `_decide_single` on the same arguments: the returned dict — key order included for
+    `evaluate`, field by field for `decide` — or WHICH exception.  The externals of the translated `eval_condition` get their values
+    from the real Python per input line (`getattr` / `_parse_dt` recorded while the real function runs, `rel_branch` = the real
+    `eval_condition` on every sub-condition with a `rel` key), as in props/c04.py.  Domain: `env["resource"]` is a dict or falsy
+    (`match_resource` is called as the total translation of C05, which answers where CPython's `resource.get` raises).
+    Validates the whole-function reading of harness/pytolean_except.py and Model/PyExcept.lean — what C02_whole trusts."""
+    import builtins
+    import copy
+    import json
+    import subprocess
+    from props import c04
+    rec = c04._ExtRecorder()
+    real_parse = rpolicy._parse_dt
+    fns = {"evaluate": lambda a: rpolicy.evaluate(a[0], a[1], algorithm=a[2]), "decide": lambda a: rset.decide(a[0], a[1]),
+           "_decide_single": lambda a: rset._decide_single(a[0], a[1])}
+
+    def rec_getattr(obj, name, *default):
+        return rec.note("getattr", [obj, name, *default], lambda: builtins.getattr(obj, name, *default))
+
+    def rec_parse(x, strict=None):
+        return rec.note("_parse_dt", [x, strict], lambda: real_parse(x, strict=strict))
+
+    calls, skipped = [], 0
+    rpolicy.getattr = rec_getattr          # a module global shadows the builtin for the functions of rbacx.core.policy
+    rpolicy._parse_dt = rec_parse
+    try:
+        for fn, args, label in whole_cases(run):
+            rec.rows, rec.bad = {"getattr": {}, "_parse_dt": {}}, False
+            want = c04._outcome(lambda: fns[fn](copy.deepcopy(args)))
+            subs: list = []
+            c04._rel_subconds(args[0], subs)
+            relrows: dict = {}
+            try:
+                for sc in subs:
+                    key = [proto.enc(sc), proto.enc(args[1])]
+                    relrows.setdefault(json.dumps(key[0]), [key, c04._outcome(lambda: rpolicy.eval_condition(copy.deepcopy(sc), copy.deepcopy(args[1])))])
+                eargs = [proto.enc(a) for a in args]
+            except TypeError:
+                skipped += 1
+                continue
+            if want is None or rec.bad or any(r_[1] is None for r_ in relrows.values()):
+                skipped += 1      # a value outside the value universe (e.g. getattr found a method of a builtin value: DESIGN §2.1 ii)
+                continue
+            ext = {"getattr": list(rec.rows["getattr"].values()), "_parse_dt": list(rec.rows["_parse_dt"].values()), "rel_branch": list(relrows.values())}
+            calls.append((fn, eargs, want, ext, label, args))
+    finally:
+        del rpolicy.getattr
+        rpolicy._parse_dt = real_parse
+    lines = [json.dumps({"fn": fn, "args": eargs, "oracle": proto.build_oracle(*raw), "ext": ext}) for fn, eargs, _w, ext, _l, raw in calls]
+    p = subprocess.run(["lake", "env", "lean", "--run", "Rbacx/Run/SrcEvalEvaluators.lean"], cwd=lib.LEAN, input="\n".join(lines) + "\n",
+                       capture_output=True, text=True, timeout=1500)
+    outs = [ln for ln in p.stdout.split("\n") if ln]
+    if p.returncode != 0 or len(outs) != len(lines):
+        return False, "SrcEvalEvaluators: " + (p.stderr or p.stdout)[-800:]
+
+    def fields(res):
+        if isinstance(res, dict) and "ok" in res and isinstance(res["ok"], list) and res["ok"][:1] == ["o"]:
+            return {"ok-fields": sorted(json.dumps(kv) for kv in res["ok"][1])}
+        return res
+    bad = 0
+    for (fn, _eargs, want, _ext, label, raw), ln in zip(calls, outs):
+        got = json.loads(ln)
+        run.count("translated-evaluators")
+        run.count(f"translated-evaluators: {fn} -> " + (want["err"] if "err" in want else "dict"))
+        same = got == want if fn == "evaluate" else fields(got) == fields(want)
+        if same and fn != "evaluate" and got == want and "ok" in want:
+            run.count("translated-evaluators: decide, same key order too")
+        if not same:
+            bad += 1
+            if bad == 1:
+                run.disagreements.append({"part": "translated source vs python", "function": fn, "label": label, "args": copy.deepcopy(raw),
+                                          "policy": None, "env": None, "impl": {"python": want}, "model": got,
+                                          "what": f"the whole-function translation of {fn} (Generated.Src, exception-passing style) and the real function differ"})
+    run.evaluations += len(calls)
+    if skipped:
+        run.count("translated-evaluators: skipped (value outside the value universe)", skipped)
+    return bad == 0, f"{bad} of {len(calls)} evaluations differ" if bad else f"agree on {len(calls)} evaluations"
+
+
 def shrink(case: dict) -> dict:
     """drop rules / children while the implementation still contradicts the spec"""
     def fails(pol):
@@ -424,8 +617,10 @@ def shrink(case: dict) -> dict:
 def check(run: lib.Run, audit: dict) -> int:
     run.rule = ("exhaustive: every outcome sequence (6 classes) of length ≤4 (quick) / ≤6 (thorough) × 3 algorithms, every set of "
                 "≤2/≤3 children from a policy pool × 3 algorithms + one level of nesting; deciding policies wrapped in 6…90 nested sets; random: schema-grammar policies/sets "
-                "(nested, with ids) with requests generated towards them; the four translated fragments of evaluate/decide vs the same statements "
-                "run by CPython on a grid of 4 algorithms × effects/decisions × id shapes × obligations shapes × loop states. "
+                "(nested, with ids) with requests generated towards them; rules with literal (non-dict) conditions; the four translated fragments of evaluate/decide vs the same statements "
+                "run by CPython on a grid of 4 algorithms × effects/decisions × id shapes × obligations shapes × loop states; the evaluators translated "
+                "whole vs the real evaluate/decide on the exhaustive enumerations (length ≤3, ids ≤2, a slice of the sets, nesting depth ≤20), on malformed "
+                "documents (rules/policies not a list, a rule/child that is not a dict, algorithm/effect not a string) and a random sample. "
                 "non-trivial = some rule applied (reason matched/explicit_deny)")
     run.exhaustive = True
     run.assumptions = ["rules are JSON objects; effect/algorithm are strings (schema)",
@@ -444,6 +639,27 @@ def check(run: lib.Run, audit: dict) -> int:
     else:
         ok_py, detail_py = translated_vs_python(run, fr)
     run.obligation("translated fragments evaluate like the same statements run by CPython (translator + Model/PyLib.lean vs CPython)", ok_py, detail_py)
+    # the two evaluators as WHOLES, translated in exception-passing style, compute the model's evaluate / decideTree (per-run obligation;
+    # it uses the theorems of the obligations about the functions the evaluators call: match_actions, eval_condition, match_resource)
+    ev = audit["facts"].get("translated_evaluators")
+    untranslatable_w = isinstance(ev, dict) and "extraction_failed" in ev
+    ok_w, detail_w = lib.run_obligation("C02_whole", deps=["C03_translated", "C04_translated", "C05_translated"])
+    run.obligation("C02_whole: Generated.Src.evaluate (the whole of policy.evaluate as the source has it now: default algorithm, initial values, "
+                   "rule loop with its head — id, action/resource tests, try/except ConditionTypeError around eval_condition, lowered effect — and "
+                   "finalisation) = the model's evaluate through encRaw; Generated.Src.decide / decide_single (the whole of policyset.decide / "
+                   "_decide_single, recursive dispatch included) return a dict that Represents decideTree of the document's tree — for every "
+                   "well-formed document (every policy, set and rule a dict), every dict env, every oracle and checker, any budget above the size",
+                   ok_w, "discharged" if ok_w else (str(ev["extraction_failed"]) if untranslatable_w else detail_w))
+    if untranslatable_w or not isinstance(ev, dict):
+        ok_pw, detail_pw = True, "skipped: the evaluators are not in the translatable subset (see C02_whole)"
+    else:
+        ok_pw, detail_pw = translated_whole_vs_python(run, ev)
+    run.obligation("the evaluators translated whole evaluate like the real evaluate / decide, dict or exception class (translator + Model/PyExcept.lean vs CPython)",
+                   ok_pw, detail_pw)
+    frag_ok = ok_tr
+    ok_tr = ok_tr and ok_w
+    detail_py = detail_py if not ok_py else detail_pw
+    ok_py = ok_py and ok_pw
     run_cases(run, audit, scale=run.boost * (1 if ok_tr else 2))
     edited_in_place(run)
     violations = []
@@ -458,15 +674,20 @@ def check(run: lib.Run, audit: dict) -> int:
                                          "more": len(run.spec_failures) - 1})
         violations.append((path, True))
     elif not ok_tr:
-        path = run.write_replay("obligation", {"what": "per-run obligation Rbacx/Run/C02_translated.lean no longer checks: the translated source of the "
-                                               "loop tails / finalisations of policy.evaluate and policyset.decide is not proved equal to the model "
-                                               "functions (stepRule, finalise, stepChild, finaliseSet) that theorems Rbacx.C02.* are about; the widened "
+        which = "Rbacx/Run/C02_translated.lean" if not frag_ok else "Rbacx/Run/C02_whole.lean"
+        path = run.write_replay("obligation", {"what": f"per-run obligation {which} no longer checks: the translated source of " +
+                                               ("the loop tails / finalisations of policy.evaluate and policyset.decide is not proved equal to the model "
+                                                "functions (stepRule, finalise, stepChild, finaliseSet)" if not frag_ok else
+                                                "policy.evaluate / policyset.decide as wholes is not proved to compute the model's evaluate / decideTree") +
+                                               " that theorems Rbacx.C02.* are about; the widened "
                                                "search found no input on which the implementation contradicts the combining spec",
-                                               "translation": fr, "lean": detail_tr[-1500:], "first_disagreement": run.disagreements[:1]})
+                                               "translation": fr if not frag_ok else {k: (v if not isinstance(v, dict) else {kk: vv for kk, vv in v.items() if kk != "lean"})
+                                                                                      for k, v in ev.items()} if isinstance(ev, dict) else ev,
+                                               "lean": (detail_tr if not frag_ok else detail_w)[-1500:], "first_disagreement": run.disagreements[:1]})
         violations.append((path, False))
     elif run.disagreements or not ok_py:
         first = run.disagreements[0] if run.disagreements else {"part": "translated source vs python", "what": detail_py, "policy": None}
-        what = ("translated source vs python: " + str(first.get("what")) + "; the obligation C02_translated rests on a translation that "
+        what = ("translated source vs python: " + str(first.get("what")) + "; the obligation C02_translated / C02_whole rests on a translation that "
                 "CPython contradicts (or that could not be evaluated)" if first.get("part") else
                 "model (Rbacx.decideTree/evaluate) and implementation disagree on (decision, policy_id); theorems Rbacx.C02.* no longer speak about this code")
         path = run.write_replay("correspondence", {"what": what, "first": first, "count": len(run.disagreements)})
